@@ -176,12 +176,12 @@ theorem qubitAxis_nonqubit (Lx Ly Lz : Nat) (loc : Coord) (h : loc ∉ qubits Lx
 
 /-- `get_deformation`: bad axis or unknown name is a ValueError; for `XZZX` the X and Z letters
     are swapped exactly on the qubits whose axis is the deformation axis -/
-theorem getDeformation_rule (Lx Ly Lz : Nat) (name axis : String) (loc : Coord) :
-    getDeformation Lx Ly Lz name axis loc =
+theorem getDeformationAt_rule (Lx Ly Lz : Nat) (name axis : String) (loc : Coord) :
+    getDeformationAt Lx Ly Lz name axis loc =
       if axis ≠ "x" ∧ axis ≠ "y" ∧ axis ≠ "z" then none
       else if name ≠ "XZZX" then none
       else (qubitAxis Lx Ly Lz loc).map fun a => if a = axis then PauliMap.swapXZ else PauliMap.id := by
-  unfold getDeformation
+  unfold getDeformationAt
   by_cases hax : axis = "x" ∨ axis = "y" ∨ axis = "z"
   · have h1 : (["x", "y", "z"].contains axis) = true := by
       rcases hax with h | h | h <;> subst h <;> decide
@@ -201,5 +201,14 @@ theorem getDeformation_rule (Lx Ly Lz : Nat) (name axis : String) (loc : Coord) 
     have h2 : axis ≠ "x" ∧ axis ≠ "y" ∧ axis ≠ "z" := by
       simp only [not_or] at hax; exact hax
     simp [h2]
+
+/-- `get_deformation` with the keyword given (`some axis`) or omitted (`none`: default `'z'`) -/
+theorem getDeformation_rule (Lx Ly Lz : Nat) (name : String) (axis : Option String) (loc : Coord) :
+    getDeformation Lx Ly Lz name axis loc =
+      if axis.getD "z" ≠ "x" ∧ axis.getD "z" ≠ "y" ∧ axis.getD "z" ≠ "z" then none
+      else if name ≠ "XZZX" then none
+      else (qubitAxis Lx Ly Lz loc).map fun a =>
+        if a = axis.getD "z" then PauliMap.swapXZ else PauliMap.id :=
+  getDeformationAt_rule Lx Ly Lz name (axis.getD "z") loc
 
 end Panqec.RotatedPlanar3DCode
